@@ -399,7 +399,10 @@ impl MatchDebug {
         // Try to "write" the value's `fmt::Debug` output to a `Matcher`. This
         // returns an error if the `fmt::Debug` implementation wrote any
         // characters that did not match the expected pattern.
-        write!(matcher, "{:?}", d).is_ok()
+        //
+        // The whole pattern must have been consumed as well: otherwise the
+        // `fmt::Debug` output was only a proper prefix of the expected string.
+        write!(matcher, "{:?}", d).is_ok() && matcher.pattern.is_empty()
     }
 }
 
